@@ -4607,3 +4607,90 @@ func ruleC13ValueCAS(c *ctx.Ctx, r *core.Reporter) {
 	}
 	r.Check(bad == "", "old-nil-never-panics", nat.Pos(c, site), "the inconsistent-types panic is taken only under `"+old+" != nil` (Go: `op.typ != nil && np.typ != op.typ`); with a value stored, CompareAndSwap(nil, x) returns false"+ternary(bad != "", " — "+bad, ""))
 }
+
+// ruleC13PanicMessages: a program can recover a panic of the standard library and look at its message. The
+// overlay of sync/atomic re-implements Value; every message it panics with has to be one the original
+// panics with (a concatenated message: its fixed head and tail must frame one of the original's).
+func ruleC13PanicMessages(c *ctx.Ctx, r *core.Reporter) {
+	r.Begin("C13.panic-messages", "F-SIB", "every panic message of the sync/atomic overlay is a message of the original package", 1)
+	orig := c.All["sync/atomic"]
+	if orig == nil || len(orig.Syntax) == 0 {
+		r.Undecided("original", "GOROOT/src/sync/atomic", "the original package is not loaded with syntax")
+		return
+	}
+	panicArgs := func(root ast.Node, f func(arg ast.Expr)) {
+		ast.Inspect(root, func(x ast.Node) bool {
+			if ce, ok := x.(*ast.CallExpr); ok && len(ce.Args) == 1 && exprStr(ce.Fun) == "panic" {
+				f(ce.Args[0])
+			}
+			return true
+		})
+	}
+	lit := func(e ast.Expr) (string, bool) {
+		if bl, ok := e.(*ast.BasicLit); ok && bl.Kind == token.STRING {
+			if s, err := strconv.Unquote(bl.Value); err == nil {
+				return s, true
+			}
+		}
+		return "", false
+	}
+	msgs := map[string]bool{}
+	for _, f := range orig.Syntax {
+		panicArgs(f, func(a ast.Expr) {
+			if s, ok := lit(a); ok {
+				msgs[s] = true
+			}
+		})
+	}
+	if len(msgs) == 0 {
+		r.Undecided("original", "GOROOT/src/sync/atomic", "no literal panic message found in the original")
+		return
+	}
+	nat := c.Natives()
+	n := 0
+	var bad []string
+	badSite := ""
+	for _, f := range nat.PkgFiles("sync/atomic") {
+		panicArgs(f.AST, func(a ast.Expr) {
+			n++
+			ok := false
+			what := exprStr(a)
+			if s, isLit := lit(a); isLit {
+				ok = msgs[s]
+			} else {
+				// head + … + tail
+				var leaves []ast.Expr
+				var flat func(e ast.Expr)
+				flat = func(e ast.Expr) {
+					if be, isBin := e.(*ast.BinaryExpr); isBin && be.Op == token.ADD {
+						flat(be.X)
+						flat(be.Y)
+						return
+					}
+					leaves = append(leaves, e)
+				}
+				flat(a)
+				head, hasHead := lit(leaves[0])
+				tail, hasTail := lit(leaves[len(leaves)-1])
+				if !hasHead && !hasTail {
+					ok = true // nothing fixed to compare (an error value, a formatted message)
+				}
+				for m := range msgs {
+					if (!hasHead || strings.HasPrefix(m, head)) && (!hasTail || strings.HasSuffix(m, tail)) && len(m) >= len(head)+len(tail) {
+						ok = true
+					}
+				}
+			}
+			if !ok {
+				bad = append(bad, what)
+				if badSite == "" {
+					badSite = nat.Pos(c, a.Pos())
+				}
+			}
+		})
+	}
+	if badSite == "" {
+		badSite = nativesRootRel + "/sync/atomic"
+	}
+	r.Check(len(bad) == 0, "messages", badSite, fmt.Sprintf("the %d panic message(s) of the overlay are among the %d of the original%s", n, len(msgs), ternary(len(bad) > 0, fmt.Sprintf(" — not a message of the original: %v", bad), "")))
+}
